@@ -92,12 +92,16 @@ type Exec struct {
 	Trace    []string
 	KeepTrc  bool
 	freeFire int
+	ghist    []uint64 // global (thread, operation) history since the last environment event
+	idleDue  bool     // the whole system repeats a block of steps: time must pass
 
 	Violations []Fault
 	vclock     int64
 	stepHash   uint64 // hash of the most recent step / environment event
 	seqHash    uint64 // order-sensitive hash of the executed operation sequence (determinism check)
 	envSeq     int
+	cleanup    []func()
+	IdleFires  int // times a timer/deadline fired for free because all running threads were polling in a loop
 	Stack      string   // stack of the panicking thread (not part of Status: addresses vary)
 	Blocked    []string // descriptions of the threads that were blocked when a deadlock was declared
 	fp         uint64
@@ -167,7 +171,20 @@ func Run(prefix []int, maxSteps int, keepTrace bool, body func(x *Exec)) *Exec {
 	raceEnable()
 	raceAcquire(unsafe.Pointer(&x.token))
 	cur = nil
+	for i := len(x.cleanup) - 1; i >= 0; i-- {
+		x.cleanup[i]()
+	}
+	x.cleanup = nil
 	return x
+}
+
+// AtExecEnd registers f to run after the current execution has completely ended. Shims
+// use it to reset state that outlives an execution (package-level Once, Pool contents),
+// so that every execution starts from the same state.
+func AtExecEnd(f func()) {
+	if x := cur; x != nil {
+		x.cleanup = append(x.cleanup, f)
+	}
 }
 
 // Counter is a harness-side recorder invisible to the race detector (this package is
@@ -506,7 +523,13 @@ func (x *Exec) schedule(t *thread) {
 		} else {
 			x.freeFire = 0
 		}
-		cands = append(cands, paid...)
+		if x.idleDue && len(free) > 0 && len(paid) > 0 {
+			paid[0].cost = costFree
+			cands = append([]cand{paid[0]}, append(cands, paid[1:]...)...)
+			x.IdleFires++
+		} else {
+			cands = append(cands, paid...)
+		}
 		idx := 0
 		if len(cands) > 1 {
 			costs := make([]int, len(cands))
@@ -521,6 +544,8 @@ func (x *Exec) schedule(t *thread) {
 			if x.KeepTrc {
 				x.Trace = append(x.Trace, fmt.Sprintf("env %s#%d fires", c.env.name, c.env.id))
 			}
+			x.ghist = x.ghist[:0]
+			x.idleDue = false
 			h := mix(hashStr("env:"+c.env.name), uint64(c.env.id))
 			x.fp ^= h
 			x.stepHash = h
@@ -538,6 +563,27 @@ func (x *Exec) schedule(t *thread) {
 			}
 		}
 		u.hist = append(u.hist, sig)
+		x.ghist = append(x.ghist, mix(uint64(u.id)+1, hashStr(sig)))
+		if n := len(x.ghist); n >= 12 {
+			for k := 6; k <= 48 && 2*k <= n; k++ {
+				same := true
+				for i := 0; i < k; i++ {
+					if x.ghist[n-1-i] != x.ghist[n-1-k-i] {
+						same = false
+						break
+					}
+				}
+				if same {
+					// several threads poll each other in a loop that changes nothing visible:
+					// only the passage of time (a timer, a deadline) can end it.
+					x.idleDue = true
+					break
+				}
+			}
+			if n > 256 {
+				x.ghist = append(x.ghist[:0], x.ghist[n-128:]...)
+			}
+		}
 		if n := len(u.hist); n >= 4 {
 			for k := 2; k <= 8 && 2*k <= n; k++ {
 				same := true
